@@ -384,12 +384,21 @@ class _Run:
             except KeyError:
                 continue
             self.viol("identify_dof-out-of-range-index-accepted", {"dof": i, "n": n})
-        # projection
-        for _ in range(2):
-            k = int(rng.integers(0, len(order) + 1)) if order else 0
-            sub = [order[int(j)] for j in rng.choice(len(order), size=k, replace=False)] if k else []
-            sel, grp = self.selectors(sub, rng) if sub else ([], [])
-            arg = sel if (sel or rng.random() < 0.5) else None
+        # projection: two random selections, plus the same two selections at EVERY quiescent
+        # point (first and last live variable, given as variable objects) - a selection
+        # requested before and after a removal / creation must follow the new layout
+        for rep in range(4):
+            if rep < 2:
+                k = int(rng.integers(0, len(order) + 1)) if order else 0
+                sub = [order[int(j)] for j in rng.choice(len(order), size=k, replace=False)] if k else []
+                sel, grp = self.selectors(sub, rng) if sub else ([], [])
+                arg = sel if (sel or rng.random() < 0.5) else None
+            else:
+                if not order:
+                    continue
+                grp = [order[0]] if rep == 2 else [order[-1]]
+                arg = [e.var for e in grp]
+                mon.count("projection_same_selection_every_step")
             P = es.projection_to(arg)
             idx = ref.indices(grp)
             mon.count("projection_checked")
